@@ -10,6 +10,7 @@ def run_check(tier, seed, replay=None):
     wd = workdir("c03")
     mc_deflate(c, wd)
     replay_catalogue(c, wd, "C03")
+    all_pairs(c, wd, "C03")
     # G: valid streams from the specification, with the tokens and plaintext they denote
     gen = gen_streams(wd, tier, seed)
     res = replay_generated(c, wd, gen)
